@@ -759,7 +759,8 @@ func (self *TextCommandConverter) ConvertTextDecrCommand(textProtocol ITextProto
 }
 
 func (self *TextCommandConverter) ConvertTextExpireCommand(textProtocol ITextProtocol, args []string) (*LockCommand, WriteTextCommandResultFunc, error) {
-	if len(args) < 3 {
+	isPersist := len(args) >= 1 && strings.ToUpper(args[0]) == "PERSIST"
+	if len(args) < 3 && !(isPersist && len(args) == 2) {
 		return nil, nil, errors.New("Command Parse Args Count Error")
 	}
 
@@ -768,10 +769,14 @@ func (self *TextCommandConverter) ConvertTextExpireCommand(textProtocol ITextPro
 	self.ConvertArgId2LockId(args[1], &lockCommand.LockKey)
 	lockCommand.LockId = lockCommand.LockKey
 	lockCommand.Flag = LOCK_FLAG_UPDATE_WHEN_LOCKED
-	expried, err := strconv.ParseInt(args[2], 10, 64)
-	if err != nil {
-		_ = textProtocol.FreeLockCommand(lockCommand)
-		return nil, nil, errors.New("Command Parse EX Value Error")
+	expried := int64(0)
+	if !isPersist {
+		v, err := strconv.ParseInt(args[2], 10, 64)
+		if err != nil {
+			_ = textProtocol.FreeLockCommand(lockCommand)
+			return nil, nil, errors.New("Command Parse EX Value Error")
+		}
+		expried = v
 	}
 	switch strings.ToUpper(args[0]) {
 	case "EXPIRE":
